@@ -183,6 +183,7 @@ func c09Faults(route int, bindPort bool) {
 	case 0:
 		_, err = env.u.SendUDP(addr, req)
 	case 1:
+		verifNetConnectMax(int64(5 * time.Millisecond)) // slow connects: VerifC09_SendTCPSlowConnect
 		_, err = env.u.SendTCP(&net.TCPAddr{IP: addr.IP, Port: verifDialTarget()}, req)
 	case 2:
 		_, err = env.u.BroadcastTo(addr, req, c09Accept)
@@ -198,3 +199,21 @@ func VerifC09_FaultsBroadcastTo()      { c09Faults(2, false) }
 func VerifC09_FaultsUDPBound()         { c09Faults(0, true) }
 func VerifC09_FaultsTCPBound()         { c09Faults(1, true) }
 func VerifC09_FaultsBroadcastToBound() { c09Faults(2, true) }
+
+// a TCP controller that is slow to accept the connection and then never answers: the whole call - connect
+// included - is bounded by one timeout (timeout 2 s here: natively the connect completes with the kernel's
+// SYN retransmission after one second)
+func VerifC09_SendTCPSlowConnect() {
+	const timeout = 2 * time.Second
+	t0 := verifClock()
+	verifNetFaults(false)
+	verifNetScript(nil)
+	verifNetConnectRange(int64(900*time.Millisecond), int64(1300*time.Millisecond))
+	u := &ut0311{bindAddr: netip.AddrPort{}, timeout: timeout}
+	_, err := u.SendTCP(&net.TCPAddr{IP: net.IPv4(127, 0, 0, 1), Port: verifSlowDialTarget()}, c09Request(0x20))
+	elapsed := verifClock() - t0
+	verifAssert(err != nil, "SendTCP: a peer that accepts late and never answers is an error")
+	verifAssert(elapsed <= int64(timeout+c09Slack), "SendTCP: the connect and the wait for the reply share one timeout")
+	verifAssert(verifSockOpen() == 0, "SendTCP: the socket it opened is closed when it returns")
+	verifReach("c09.tcp.slowconnect")
+}
